@@ -24,6 +24,12 @@ pub const MAX_BLOCK_SIZE: u32 = 128 * 1024;
 pub struct Error { pub k: u8 }
 pub trait Read {
     spec fn avail(&self) -> int;
+    /// std contract of `read`: SOME bytes, at most buf.len() (callers that need an exact count must use read_exact)
+    fn read(&mut self, buf: &mut [u8]) -> (r: Result<usize, Error>)
+        ensures
+            final(buf)@.len() == old(buf)@.len(),
+            r matches Ok(n) ==> n <= old(buf)@.len() && n <= old(self).avail() && final(self).avail() == old(self).avail() - n,
+            r is Err ==> final(self).avail() <= old(self).avail();
     /// ghost mode flag: the reader is a caller-provided chunk of an incremental (slice-to-slice) decode; running out of bytes in the
     /// middle of a block would then turn "need more input" into a hard error, so a block body may only be decoded when it is entirely present
     spec fn incremental() -> bool;
@@ -46,6 +52,8 @@ pub fn first4(s: &[u8]) -> (r: [u8; 4])
 impl<'a> Read for &'a [u8] {
     open spec fn avail(&self) -> int { self@.len() as int }
     open spec fn incremental() -> bool { true }
+    #[verifier::external_body]
+    fn read(&mut self, buf: &mut [u8]) -> (r: Result<usize, Error>) { unimplemented!() }
     #[verifier::external_body]
     fn read_exact(&mut self, buf: &mut [u8]) -> (r: Result<(), Error>) { unimplemented!() }
 }
@@ -199,6 +207,13 @@ impl FrameDecoder {
                         state.block_counter >= bm0, 3 * (state.block_counter - bm0) <= lm0 - mt_source@.len(),
                         cm0 + lm0 <= u64::MAX, bm0 + lm0 <= usize::MAX,
                     decreases mt_source@.len(),
+//@ghost before="break;" nth=1
+                        // progress: the block loop may stop for lack of a header only if fewer than 3 bytes are left (a block header is 3
+                        // bytes, and an empty last block is nothing but its header)
+                        proof { assert(mt_source@.len() < 3); }
+//@ghost before="break;" nth=2
+                        // ... and for lack of content only if the block body is not entirely present yet
+                        proof { assert(mt_source@.len() < block_header.content_size); }
 //@end
 
 #[verifier::loop_isolation(false)]
